@@ -77,13 +77,14 @@ func (prop) Extra(rng *rand.Rand, tier string) corr.ExtraResult {
 	}
 	res.Notes["tolerated_findings"] = tolerated
 	res.Notes["generated_blocks"] = map[string]int64{
-		"forged":                          atomic.LoadInt64(&cntForged),
-		"with_transactions":               atomic.LoadInt64(&cntForgedWithTxs),
-		"with_nonempty_aggregate_commit":  atomic.LoadInt64(&cntForgedWithAgg),
-		"at_or_below_largest_height":      atomic.LoadInt64(&cntLowerForge),
-		"crash_at_handoff_checks":         atomic.LoadInt64(&cntCrashChecks),
-		"with_validator_change":           atomic.LoadInt64(&cntForgedVChange),
-		"contradictions_on_nonbetter_tip": atomic.LoadInt64(&cntNonBetterContra),
+		"forged":                         atomic.LoadInt64(&cntForged),
+		"with_transactions":              atomic.LoadInt64(&cntForgedWithTxs),
+		"with_nonempty_aggregate_commit": atomic.LoadInt64(&cntForgedWithAgg),
+		"at_or_below_largest_height":     atomic.LoadInt64(&cntLowerForge),
+		"crash_at_handoff_checks":        atomic.LoadInt64(&cntCrashChecks),
+		"with_validator_change":          atomic.LoadInt64(&cntForgedVChange),
+		"consensus_arguments_compared_generation_vs_validation": atomic.LoadInt64(&cntConsensusSeen),
+		"contradictions_on_nonbetter_tip":                       atomic.LoadInt64(&cntNonBetterContra),
 	}
 	// how many generated blocks sat exactly at each limit producer and verifier share (boundary.go)
 	res.Notes["boundary_blocks"] = boundaryNotes()
